@@ -61,7 +61,15 @@ static SCRATCH_N: std::sync::atomic::AtomicU32 = std::sync::atomic::AtomicU32::n
 
 pub fn scratch_dir(tag: &str) -> PathBuf {
     let n = SCRATCH_N.fetch_add(1, std::sync::atomic::Ordering::SeqCst);
-    std::env::temp_dir().join(format!("acb_verif_{}_{}_{}", tag, std::process::id(), n))
+    // a memory file system when there is one (the crash runs sync every file they write)
+    let base = match std::env::var("ACB_VERIF_SCRATCH") {
+        Ok(d) => PathBuf::from(d),
+        Err(_) => {
+            let shm = PathBuf::from("/dev/shm");
+            if shm.is_dir() { shm } else { std::env::temp_dir() }
+        }
+    };
+    base.join(format!("acb_verif_{}_{}_{}", tag, std::process::id(), n))
 }
 
 // ------------------------------------------------------------------------------------ generation
